@@ -95,6 +95,49 @@ theorem dwells_all (path : List Int) (exclude : Bool) :
   | false => simp [(dwells_partition path s).1]
   | true => simp [dwells_exclude_ends path s ((dwells_keys path s).mp hs)]
 
+/-- **Conservation of samples.**  The dwell counts returned for all states together add up to the
+    total length of the runs kept: with `exclude_ambiguous_dwells=False` that is the length of the
+    trace (every sample is counted exactly once); with `True` it is the trace length minus the
+    lengths of the first and the last run. -/
+theorem dwell_counts_conserve (path : List Int) (exclude : Bool) (d : List (Int × List (Nat × Nat)))
+    (h : dwells path exclude = some d) :
+    totalCounts d = ((if exclude then (rle path).tail.dropLast else rle path).map Run.len).sum ∧
+    ((rle path).map Run.len).sum = path.length ∧
+    (exclude = false → totalCounts d = path.length) ∧
+    (∀ f mid l, rle path = f :: (mid ++ [l]) → exclude = true →
+      totalCounts d + f.len + l.len = path.length) := by
+  have hc : Contig 0 path.length (rle path) := (dwells_partition path 0).2.1
+  have hT : ((rle path).map Run.len).sum = path.length := by
+    have := contig_sum_len _ _ _ hc; simpa using this
+  rw [dwells_all path exclude, Option.some.injEq] at h
+  have hsub : ∀ r ∈ (if exclude then (rle path).tail.dropLast else rle path), r.state ∈ uniq path := by
+    intro r hr
+    apply (dwells_keys path r.state).mpr
+    apply rle_state_mem path r
+    cases exclude with
+    | false => simpa using hr
+    | true => exact List.mem_of_mem_tail (List.mem_of_mem_dropLast (by simpa using hr))
+  have e1 : totalCounts d
+      = ((if exclude then (rle path).tail.dropLast else rle path).map Run.len).sum := by
+    rw [← h, ← sum_by_state (uniq path) (uniq_nodup path) _ hsub]
+    simp only [totalCounts, List.map_map, Function.comp_def, dwellCounts_sum]
+  refine ⟨e1, hT, ?_, ?_⟩
+  · intro he; rw [e1, he]; simpa using hT
+  · intro f mid l hr he
+    subst he
+    rw [e1]
+    simp only [if_true, hr, List.tail_cons, List.dropLast_concat]
+    rw [hr] at hT
+    simp only [List.map_cons, List.map_append, List.sum_cons, List.sum_append, List.map_nil, List.sum_nil] at hT
+    omega
+
+/-- Non-vacuity: a trace of seven samples with four runs; all counts together give 7, with the
+    ambiguous dwells excluded `7 - 2 - 1 = 4`. -/
+example : ∃ d d', dwells [0, 0, 1, 1, 1, 0, 2] false = some d ∧ totalCounts d = 7 ∧
+    dwells [0, 0, 1, 1, 1, 0, 2] true = some d' ∧ totalCounts d' = 4 ∧
+    rle [0, 0, 1, 1, 1, 0, 2] = ⟨0, 0, 2⟩ :: ([⟨1, 2, 5⟩, ⟨0, 5, 6⟩] ++ [⟨2, 6, 7⟩]) :=
+  ⟨_, _, rfl, by decide, rfl, by decide, by decide⟩
+
 /-! ## Forward–backward -/
 
 /-- The product of the scaling factors is the exact likelihood `Σ_paths P(path, y)` (all `K^T` state
@@ -386,6 +429,38 @@ theorem em_link (K : Nat) (pi : Nat → Rat) (A : Nat → Nat → Rat) (B : List
   refine ⟨by rw [e1, EM.cast_likelihoodSpec hB], fun t i ht hi => ?_, fun t i j ht hi hj => ?_⟩
   · rw [← EM.cast_pinnedSpec hB ht, ← e4 t i ht hi]; push_cast; ring
   · rw [← EM.cast_pinned2Spec hB ht, ← e5 t i j ht hi hj]; push_cast; ring
+
+/-- … and the re-estimated parameters of `em_monotone` (`π'`, `A'`, `μ'`, `σ'²` over ℝ from the
+    path sums) are the casts of what the executable model's `updPi`, `updA`, `updMean`, `updVar`
+    return (the functions compared with `ClassicHmm.update` on every run). -/
+theorem em_link_update (K : Nat) (pi : Nat → Rat) (A : Nat → Nat → Rat) (B : List Vec) (r : FB)
+    (data : List Rat) (h : forwardBackward K pi A B = some r) (hp : posModel K pi A B = true)
+    (hd : data.length = B.length) :
+    (∀ i, i < K → EM.newPi K B.length (EM.cpi pi) (EM.cA A) (EM.tabR B) i
+      = ((atR (updPi r.gammas) i : ℚ) : ℝ)) ∧
+    (∀ i j, i < K → j < K → EM.newA K B.length (EM.cpi pi) (EM.cA A) (EM.tabR B) i j
+      = ((fnOfRows (updA K r.gammas r.xis) i j : ℚ) : ℝ)) ∧
+    (∀ j, j < K →
+      EM.newMuB K B.length (EM.cpi pi) (EM.cA A) (EM.tabR B) (fun t => ((data.getD t 0 : ℚ) : ℝ)) j
+        = ((atR (updMean K r.gammas data) j : ℚ) : ℝ)) ∧
+    (∀ j, j < K →
+      EM.newVarB K B.length (EM.cpi pi) (EM.cA A) (EM.tabR B) (fun t => ((data.getD t 0 : ℚ) : ℝ)) j
+        = ((atR (updVar K r.gammas data) j : ℚ) : ℝ)) := by
+  have hB : B ≠ [] := by rintro rfl; simp [forwardBackward] at h
+  have hT : 0 < B.length := List.length_pos_of_ne_nil hB
+  obtain ⟨l1, l2, l3⟩ := em_link K pi A B r h hp
+  have hL0 := (inference_exact_of_posModel K pi A B r h hp).2.1
+  have hLne : ((r.likelihood : ℚ) : ℝ) ≠ 0 := by exact_mod_cast ne_of_gt hL0
+  have hgl := (gamma_normalised K pi A B r h
+    (fun s hs => ne_of_gt (scaling_positive K pi A B r h hp s hs))).1
+  have hxl : r.xis.length = B.length - 1 := by
+    have := congrArg List.length (xi_marginal K pi A B r h)
+    simpa [hgl] using this
+  refine ⟨fun i hi => EM.pi_link r.gammas r.likelihood hLne l1 (l2 0 i hT hi),
+    fun i j hi hj => EM.A_link r.gammas r.xis r.likelihood hLne hxl hgl hi hj
+      (fun t ht => l2 t i ht hi) (fun t ht => l3 t i j ht hi hj),
+    fun j hj => (EM.mean_link r.gammas data r.likelihood hLne hgl hd hj (fun t ht => l2 t j ht hj)).symm,
+    fun j hj => (EM.var_link r.gammas data r.likelihood hLne hgl hd hj (fun t ht => l2 t j ht hj)).symm⟩
 
 /-- **Ascent for the executable model, emission table kept**: for every model with probability
     weights (totals at most one) and positive emission densities — any table `B`, Gaussian or not —
